@@ -1,4 +1,4 @@
-use super::{BoxConstraint, Tree, TreeMut, View, ViewContext, ViewLayout, ViewMutLayout};
+use super::{BoxConstraint, Layout, Tree, TreeMut, View, ViewContext, ViewLayout, ViewMutLayout};
 use crate::{Error, TerminalSurface};
 
 /// Widget that changes depending on constraints that it was given.
@@ -31,7 +31,9 @@ where
         layout: ViewLayout<'_>,
     ) -> Result<(), Error> {
         let view = layout.data::<V>().ok_or(Error::InvalidLayout)?;
-        view.render(ctx, surf, layout.view())?;
+        let surf = layout.apply_to(surf);
+        let child_layout = layout.children().next().ok_or(Error::InvalidLayout)?;
+        view.render(ctx, surf, child_layout)?;
         Ok(())
     }
 
@@ -41,9 +43,14 @@ where
         ct: BoxConstraint,
         mut layout: ViewMutLayout<'_>,
     ) -> Result<(), Error> {
+        // The generated view gets its own layout node, so the data stored by
+        // this view can not be overwritten by (or mistaken for) the data of
+        // the generated view, e.g. nested `Dynamic` of the same type.
         let view = (self.build)(ctx, ct);
-        view.layout(ctx, ct, layout.view_mut())?;
-        layout.set_data(view);
+        let mut child_layout = layout.push_default();
+        view.layout(ctx, ct, child_layout.view_mut())?;
+        let size = child_layout.size();
+        *layout = Layout::new().with_size(size).with_data(view);
         Ok(())
     }
 }
